@@ -11,6 +11,7 @@ import (
 	"strconv"
 	"strings"
 	"time"
+	"unicode/utf8"
 
 	"golang.org/x/tools/go/ssa"
 
@@ -544,8 +545,21 @@ func (in *Interp) jsonRenderString(s Str) []*sym.Term {
 		return out
 	}
 	out := lit("\"")
+	all := in.strBytes(s)
 	for i := 0; i < s.Len(); i++ {
 		b := in.strAt(s, i)
+		if r, size, ok := concreteRune(all, i); ok {
+			switch {
+			case r == utf8.RuneError && size == 1:
+				out = append(out, lit("\\ufffd")...)
+			case r == 0x2028 || r == 0x2029:
+				out = append(out, lit(fmt.Sprintf("\\u%04x", r))...)
+			default:
+				out = append(out, all[i:i+size]...)
+			}
+			i += size - 1
+			continue
+		}
 		done := false
 		for _, e := range []struct {
 			ch  byte
@@ -799,6 +813,23 @@ func (p *symJSONParser) str() *JNode {
 				if i+6 > n {
 					return nil
 				}
+				// four concrete hex digits: any code point of the basic plane (surrogate
+				// pairs are outside the bound)
+				if bs[i+2].IsConst() && bs[i+3].IsConst() && bs[i+4].IsConst() && bs[i+5].IsConst() {
+					hx := string([]byte{byte(bs[i+2].Val), byte(bs[i+3].Val), byte(bs[i+4].Val), byte(bs[i+5].Val)})
+					v, perr := strconv.ParseUint(hx, 16, 32)
+					if perr != nil {
+						return nil
+					}
+					if v >= 0xd800 && v < 0xe000 {
+						in.unsupported("surrogate \\u escape in JSON text")
+					}
+					for _, x := range []byte(string(rune(v))) {
+						out = append(out, c.BV(8, uint64(x)))
+					}
+					i += 6
+					continue
+				}
 				// \u00XX with concrete "00" and symbolic or concrete hex digits (what the
 				// encoder above produces); other code points are outside the bound
 				hexv := func(h *sym.Term) (*sym.Term, bool) {
@@ -836,6 +867,17 @@ func (p *symJSONParser) str() *JNode {
 				continue
 			}
 			return nil
+		}
+		if r, size, ok := concreteRune(bs, i); ok {
+			if r == utf8.RuneError && size == 1 {
+				for _, x := range []byte("\ufffd") {
+					out = append(out, c.BV(8, uint64(x)))
+				}
+			} else {
+				out = append(out, bs[i:i+size]...)
+			}
+			i += size
+			continue
 		}
 		if in.Path.Branch(c.Cmp(sym.OpUle, c.BV(8, 0x80), b)) {
 			in.unsupported("non-ASCII byte in symbolic JSON string (outside the stated bound)")
@@ -911,7 +953,7 @@ func (in *Interp) jsonMarshal(t types.Type, v Value) (n *JNode, err *jsonErr) {
 			return &JNode{Kind: JNumVal, Val: term(v), Signed: signed}, nil
 		}
 		if isString(tt) {
-			return &JNode{Kind: JString, S: v.(Str)}, nil
+			return &JNode{Kind: JString, S: in.utf8Sanitize(v.(Str))}, nil
 		}
 		if isFloat(tt) {
 			b, e := json.Marshal(v.(float64))
@@ -1149,7 +1191,7 @@ func (in *Interp) jsonUnmarshalInto(u *unmarshalState, n *JNode, t types.Type, p
 			}
 			switch n.Flavor {
 			case flPlain:
-				in.store(p, n.S)
+				in.store(p, in.utf8Sanitize(n.S))
 			default:
 				in.store(p, Str{Opq: &Opaque{What: "text of a time/bytes JSON string", NotNilWord: true}})
 			}
@@ -1438,4 +1480,75 @@ func init() {
 		}
 		return Iface{}
 	}
+}
+
+
+// ---------- UTF-8 in JSON strings ----------
+//
+// Symbolic bytes are ASCII by the harnesses' assumption (a symbolic byte >= 0x80 ends the path
+// as unsupported wherever text is rendered); concrete bytes may be anything. encoding/json
+// writes valid multi-byte sequences as they are, U+2028/U+2029 as \u2028/\u2029 and every byte
+// that is not part of a valid sequence as \ufffd; reading replaces such bytes by U+FFFD.
+
+// concreteRune decodes the UTF-8 sequence starting at bs[i] if bs[i] is a concrete byte
+// >= 0x80. Concrete continuation bytes are taken while they are concrete (a symbolic byte is
+// ASCII and cannot continue a sequence). ok is false if bs[i] is symbolic or ASCII.
+func concreteRune(bs []*sym.Term, i int) (r rune, size int, ok bool) {
+	if !bs[i].IsConst() || bs[i].Val < 0x80 {
+		return 0, 0, false
+	}
+	var buf []byte
+	for j := i; j < len(bs) && len(buf) < 4 && bs[j].IsConst(); j++ {
+		buf = append(buf, byte(bs[j].Val))
+	}
+	r, size = utf8.DecodeRune(buf)
+	return r, size, true
+}
+
+// utf8Sanitize returns s with every concrete byte that is not part of a valid UTF-8 sequence
+// replaced by U+FFFD (what a string is after crossing encoding/json in either direction).
+func (in *Interp) utf8Sanitize(s Str) Str {
+	if s.Opq != nil {
+		return s
+	}
+	if s.IsConc() {
+		if utf8.ValidString(s.S) {
+			return s
+		}
+		var sb strings.Builder
+		for i := 0; i < len(s.S); {
+			r, size := utf8.DecodeRuneInString(s.S[i:])
+			if r == utf8.RuneError && size == 1 {
+				sb.WriteString("\ufffd")
+			} else {
+				sb.WriteString(s.S[i : i+size])
+			}
+			i += size
+		}
+		return Str{S: sb.String()}
+	}
+	bs := in.strBytes(s)
+	changed := false
+	var out []*sym.Term
+	for i := 0; i < len(bs); {
+		r, size, ok := concreteRune(bs, i)
+		if !ok {
+			out = append(out, bs[i])
+			i++
+			continue
+		}
+		if r == utf8.RuneError && size == 1 {
+			for _, b := range []byte("\ufffd") {
+				out = append(out, in.Ctx.BV(8, uint64(b)))
+			}
+			changed = true
+		} else {
+			out = append(out, bs[i:i+size]...)
+		}
+		i += size
+	}
+	if !changed {
+		return s
+	}
+	return in.mkStr(out)
 }
